@@ -126,11 +126,16 @@ def G_inst(fam, i, L) -> z3.BoolRef:  # noqa: N802, N803
     Implicit trivia (family tv) never fails, so its G is stated with ok = True."""
     ok_f, st_f, prs_f, _ = fam
     ok = z3.BoolVal(True) if ok_f.name() == "tv_ok" else ok_f(i, L)
-    return z3.Implies(z3.And(*wf_state(L)), z3.And(*G(L, ok, st_f(i, L), prs_f(i, L))))
+    is_rule = ok_f.name() in ("rule_ok", "tv_ok")
+    return z3.Implies(z3.And(*wf_state(L, is_rule)), z3.And(*G(L, ok, st_f(i, L), prs_f(i, L))))
 
 
-def wf_state(L) -> list[z3.BoolRef]:  # noqa: N803
+def wf_state(L, rule: bool = False) -> list[z3.BoolRef]:  # noqa: N803
+    """Precondition of every expression's parse(); a *rule* may also be called on an empty rule stack
+    (the start rule), since Rule.parse pushes itself before anything can call fail()."""
     n = z3.Length(INP)
+    if rule:
+        return wf_state(L)[:-1]
     return [
         0 <= START,
         START <= lget(L, "pos"),
@@ -233,7 +238,7 @@ class StateModel:
         is_tv = ok_f.name() == "tv_ok"
         ok, L2, P = ok_f(i, L), st_f(i, L), prs_f(i, L)  # noqa: N806
         # the callee's precondition is an obligation of the caller
-        run.oblige(f"child.requires.{ok_f.name()[:-3]}", z3.And(*wf_state(L)))
+        run.oblige(f"child.requires.{ok_f.name()[:-3]}", z3.And(*wf_state(L, ok_f.name() in ("rule_ok", "tv_ok"))))
         run.assume(G_inst(fam, i, L))
         run.ghost.setdefault("oracle_calls", []).append((fam, i, L))
         self.unpack(run, st, L2)
